@@ -31,7 +31,7 @@ From PLV Require Import Base.PyStr Tok.Tokenizer Parse.Nodes Parse.Parser Parse.
 From PLV Require Import L2T.L2T L2T.L2TWire L2T.Render.
 From PLV Require Import Doc.DocGrammar.
 From PLV Require Import Proofs.RenderModel Proofs.RenderProofs Proofs.RenderCompose Proofs.RenderDefaults.
-From PLV Require Import Proofs.ComposeRender.
+From PLV Require Import Proofs.ComposeRender Proofs.ComposeRenderSpace.
 Import ListNotations.
 
 (** * The implementation model equals the specification on every core tree
@@ -398,7 +398,50 @@ Section EndToEndExample.
   Qed.
 End EndToEndExample.
 
+(** the SPACE join at string level: a core document ending with the text run [t], the
+    whitespace [ws] (spaces, at most one newline: [ok_doc] of the joined document), a core
+    document starting with the text run [u] — the written form is the concatenation of the
+    two written forms around [ws], and the text is the two texts around [ws], for every
+    option record (in the tree, [t], [ws], [u] and the text / whitespace that follows [u]
+    form ONE character node; text runs of [ok_doc] documents are never blank, which is the
+    [text_kept] hypothesis of [C03_compositional_space]) *)
+Theorem C03_compositional_space_source_partial : forall o l1 w1 t ws u l2 tr ks1 ks2,
+  let d1 := {| d_items := l1 ++ [Text w1 t]; d_trail := [] |} in
+  let d2 := {| d_items := Text [] u :: l2; d_trail := tr |} in
+  let d := {| d_items := l1 ++ Text w1 t :: Text ws u :: l2; d_trail := tr |} in
+  ok_doc cx0 d1 = true -> ok_doc cx0 d2 = true -> ok_doc cx0 d = true ->
+  doc_cores lt0 cx0 d1 = Some ks1 -> doc_cores lt0 cx0 d2 = Some ks2 ->
+  unparse d = unparse d1 ++ ws ++ unparse d2
+  /\ exists t1 t2,
+       latex_to_text o (unparse d1) false = Some (t1, d0)
+       /\ latex_to_text o (unparse d2) false = Some (t2, d0)
+       /\ latex_to_text o (unparse d) false = Some (t1 ++ ws ++ t2, d0).
+Proof. exact compositional_space_source. Qed.
+
+(** non-vacuity: [{c}\alpha ab] joined by [space newline] with [cd e $y$\n] *)
+Example C03_compositional_space_source_nonvacuous : forall o,
+  let l1 := [Grp [] [Text [] [99%N]] []; Mac [] [97;108;112;104;97]%N [32%N] []] in
+  let l2 := [Text [32%N] [101%N]; Math [32%N] MDollar [Text [] [121%N]] []] in
+  let d1 := {| d_items := l1 ++ [Text [] [97;98]%N]; d_trail := [] |} in
+  let d2 := {| d_items := Text [] [99;100]%N :: l2; d_trail := [10%N] |} in
+  unparse d1 = [123; 99; 125; 92; 97; 108; 112; 104; 97; 32; 97; 98]%N
+  /\ unparse d2 = [99; 100; 32; 101; 32; 36; 121; 36; 10]%N
+  /\ exists t1 t2,
+      latex_to_text o (unparse d1) false = Some (t1, d0)
+      /\ latex_to_text o (unparse d2) false = Some (t2, d0)
+      /\ latex_to_text o (unparse d1 ++ [32; 10]%N ++ unparse d2) false = Some (t1 ++ [32; 10]%N ++ t2, d0).
+Proof.
+  intros o l1 l2 d1 d2. split; [vm_compute; reflexivity|]. split; [vm_compute; reflexivity|].
+  destruct (C03_compositional_space_source_partial o l1 [] [97;98]%N [32;10]%N [99;100]%N l2 [10%N]
+              [KGroup [KText [99%N]]; KSymbol [945%N] [32%N]; KText [97; 98]%N]
+              [KText [99; 100; 32; 101; 32]%N; KMath false [36%N] [36%N] [36; 121; 36]%N [KText [121%N]]; KText [10%N]])
+    as (U & t1 & t2 & A & B & C); try (vm_compute; reflexivity).
+  exists t1, t2. split; [exact A|]. split; [exact B|]. fold d1 d2 in U. rewrite <- U. exact C.
+Qed.
+
 Print Assumptions C03_doc_tree_core_partial.
+Print Assumptions C03_compositional_space_source_partial.
+Print Assumptions C03_compositional_space_source_nonvacuous.
 Print Assumptions C03_end_to_end_partial.
 Print Assumptions C03_doc_cores_par_partial.
 Print Assumptions C03_compositional_par_source_partial.
